@@ -240,7 +240,12 @@ impl Store {
 
     fn for_each_dependent_access<'a>(&'a self, operation: Operation, mut f: impl FnMut(&'a Access)) {
         let access = match &self.entries[operation.obj.index] {
-            Entry::Arc(entry) => entry.last_dependent_access(operation.action.into()),
+            Entry::Arc(entry) => {
+                entry
+                    .dependent_accesses(operation.action.into())
+                    .for_each(f);
+                return;
+            }
             Entry::Atomic(entry) => {
                 entry
                     .dependent_accesses(operation.action.into())
@@ -276,7 +281,9 @@ impl Store {
         dpor_vv: &VersionVec,
     ) {
         match &mut self.entries[operation.obj.index] {
-            Entry::Arc(entry) => entry.set_last_access(operation.action.into(), path_id, dpor_vv),
+            Entry::Arc(entry) => {
+                entry.set_last_access(operation.action.into(), thread, path_id, dpor_vv)
+            }
             Entry::Atomic(entry) => {
                 entry.set_last_access(operation.action.into(), thread, path_id, dpor_vv)
             }
